@@ -5,6 +5,10 @@ type nat =
 | O
 | S of nat
 
+type ('a, 'b) sum =
+| Inl of 'a
+| Inr of 'b
+
 val fst : ('a1 * 'a2) -> 'a1
 
 val snd : ('a1 * 'a2) -> 'a2
@@ -1289,6 +1293,10 @@ type expr =
 | Add of expr * expr
 | CallE of expr * expr
 | Par of expr
+| AddAsgV of char list * expr
+| AddAsgM of expr * char list * expr
+| AsgV of char list * expr
+| AsgM of expr * char list * expr
 | MCall0 of expr * char list
 | CallT0 of expr * expr
 | MCall1 of expr * char list * expr
@@ -1321,6 +1329,12 @@ val arg_act : expr -> act
 val rw_mcall : expr -> char list -> expr -> nat -> expr * nat
 
 val rw_mcall0 : expr -> char list -> nat -> expr * nat
+
+val group_sum : expr -> expr
+
+val rw_addasg_v : char list -> expr -> nat -> expr * nat
+
+val rw_addasg_m : expr -> char list -> expr -> nat -> expr * nat
 
 val rw :
   (char list -> bool) -> (char list -> bool) -> expr -> nat -> expr * nat
